@@ -74,6 +74,9 @@ type rlOpts struct {
 	// ListRepeat: an enum `in` / `notIn` list names its first option twice, the second time as written ("same") or with the
 	// enum's prefix ("prefixed": ALPHA and COLOR_ALPHA are one option); the list denotes the same set of options
 	ListRepeat string `json:"listRepeat"`
+	// OptDesc: the first declared option of the enum carries a description, the others none (a comment in the generated
+	// file between elements without one)
+	OptDesc bool `json:"optDesc"`
 }
 
 // rlListRepeat is the ListRepeat choice of the case being printed (the drivers are sequential)
@@ -394,7 +397,9 @@ func rlFileText(units []rlUnit, o rlOpts) string {
 			sb.WriteString("  option UNSPECIFIED\n")
 		}
 		for i, n := range rlEnumOptions {
-			if o.EnumNums {
+			if o.OptDesc && i == 0 {
+				sb.WriteString("  option " + n + " {\n    | the first colour\n  }\n")
+			} else if o.EnumNums {
 				sb.WriteString(fmt.Sprintf("  option %s {\n    number = %d\n  }\n", n, i+1))
 			} else {
 				sb.WriteString("  option " + n + "\n")
